@@ -48,6 +48,9 @@ CLAIMS = {
             "type-exact structure and container identities of the caller's document are unchanged; plus sequences of 2-4 calls on "
             "shared objects equal to the same calls on fresh objects. Arbitrary sequences/interleavings follow by induction "
             "(only reads are shared); threads are not executed", "3 C08"),
+    "C09": ("for every leaf kind x argument shape x enumerated key spelling (case variants, aliases, type names), from_spec(spec) equals the "
+            "DSL-built condition (same class) and both filter identically, for every value of the symbolic arguments and probe leaf; "
+            "and/or/xor spec lists nested to depth 2", "3 C09"),
     "C14": ("equality laws (reflexive/symmetric/transitive, rebuilt and commuted copies equal) and 'equal implies same "
             "behaviour' decided for every value of the differing atom (key, index, argument, label) and of the probe "
             "document's leaves, per term kind", "3 C14"),
